@@ -229,5 +229,15 @@ static void spread(void) {
   }
 }
 
-void prop_enumerate(void) { codebook(); tables(); parity(); masks(); spread(); }
+void prop_enumerate(void) {
+  if (!strcmp(vx_arg("mode", "initial"), "reinit")) {
+    /* non-initial library state: the tables must be exactly right again after an explicit m4ri_fini() / m4ri_init() cycle
+       (with heap traffic in between, so that freed table memory is recycled) */
+    m4ri_fini();
+    { void *junk[64]; for (int i = 0; i < 64; i++) { junk[i] = vx_malloc(32 + 56 * (size_t)i); memset(junk[i], 0x5A, 32 + 56 * (size_t)i); } for (int i = 0; i < 64; i++) vx_free(junk[i]); }
+    m4ri_init();
+    codebook(); tables();
+    return;
+  }
+  codebook(); tables(); parity(); masks(); spread(); }
 int main(int argc, char **argv) { return vx_main(argc, argv); }
